@@ -270,10 +270,37 @@ def run(env, rep):
                     found = True
                     cb = prog.bodies[cp]
                     names = [cb.locals[i]["name"] for i in range(1, cb.arg_count + 1)]
-                    av = dict(zip(names, [stable(a) for a in args]))
-                    ok = re.search(r"as %s\.data$" % variant, av.get("data", "")) is not None and "to_rtmp_message" in av.get("data", "") \
-                        and av.get("stream_id", "").endswith(".message_stream_id") and av.get("timestamp", "").endswith(".timestamp") \
-                        and "get_next_message" in av.get("timestamp", "") and "get_next_message" in av.get("stream_id", "")
+
+                    def through_phis(a, depth=0):
+                        """a value carried around the message loop in a variable: describe it by what flows into the variable"""
+                        txt = stable(a)
+                        if depth > 2 or "phi(" not in txt:
+                            return [txt]
+                        out = []
+                        for x in subterms(a):
+                            if isinstance(x, tuple) and x[0] == "phi":
+                                head, loc = x[1], x[2]
+                                inc = [it.edge_out[(q, head)].read(loc) for q in hb.preds[head] if it.edge_out.get((q, head)) is not None]
+                                inc = [v for v in inc if v != x]
+                                if inc and all(isinstance(v, tuple) for v in inc):
+                                    for v in inc:
+                                        base = v
+                                        while isinstance(base, tuple) and base[0] == "upd":
+                                            base = base[1]
+                                        for r in through_phis(base, depth + 1):
+                                            out.append(txt.replace(stable(x), r))
+                                    return out
+                        return [txt]
+                    alts = [through_phis(a) for a in args]
+                    # every combination must satisfy the rule: check each argument's alternatives independently
+                    av_list = []
+                    import itertools
+                    for combo in itertools.islice(itertools.product(*alts), 16):
+                        av_list.append(dict(zip(names, combo)))
+                    av = av_list[0]
+                    ok = all(re.search(r"as %s\.data$" % variant, av.get("data", "")) is not None and "to_rtmp_message" in av.get("data", "")
+                             and av.get("stream_id", "").endswith(".message_stream_id") and av.get("timestamp", "").endswith(".timestamp")
+                             and "get_next_message" in av.get("timestamp", "") and "get_next_message" in av.get("stream_id", "") for av in av_list)
                     rep.check("C02.R3", "%s::%s|receives-payload" % (which, hname), ok, "the handler gets the message's data and the payload's stream id and timestamp",
                               "%s::handle_input calls %s with data=%s stream_id=%s timestamp=%s" % (which, hname, av.get("data", "")[:60], av.get("stream_id", "")[:60], av.get("timestamp", "")[:60]), t["span"])
             if not found:
